@@ -3,7 +3,8 @@
    Proofs/TransportProofs.v and followed by Print Assumptions. The retry
    schedule is the one goextract read from transport.go on this run. *)
 From Apko Require Import Base.Prelude Model.Transport Spec.TransportSpec
-  Proofs.TransportProofs Generated.Transport.
+  Proofs.TransportProofs Generated.Transport Generated.TransportShape
+  Model.TransportReq Model.TransportCache Proofs.TransportReqProofs Proofs.TransportCacheProofs.
 
 (* the schedule in the source is non-empty and ends with "do not retry" *)
 Theorem c20_schedule_sound : sched_ok retry_schedule = true.
@@ -159,3 +160,204 @@ Theorem c20_bad_schedule_refuted :
     valid_outs (data srv) [] outs <> [].
 Proof. exact bad_schedule_duplicates. Qed.
 Print Assumptions c20_bad_schedule_refuted.
+
+(* ======================================================================== *)
+(* Session 6: the request side, error responses with bodies, the callers,   *)
+(* the retry budget, the cached index download. Model/TransportReq.v is the *)
+(* reader one step closer to the text; the yes/no facts about the text that *)
+(* decide its behaviour are read from the source on every run              *)
+(* (Generated/TransportShape.v, [code_shape], [code_cshape]).               *)
+(* ======================================================================== *)
+
+(* transport.go, its two callers and retrieveAndSaveFile, as goextract reads
+   them on this run, have the shape the theorems below need: the Range header
+   is replaced (Set), or the request copies do not share their Header map; r.body
+   is assigned after the status test, or a failed reset's response is closed; a
+   failed reset ends the Read; both callers refuse every status but 200; the
+   schedule is [retry_budget] retries and one last attempt; an error of io.Copy
+   fails the cached download, removes the temporary file, and comes before the
+   file is advertised *)
+Theorem c20_text_as_modelled :
+  shape_okb code_shape = true /\ failed_reset_ends_read = true /\ callers_accept_only_200 = true /\
+  retry_schedule = repeat true retry_budget ++ [false] /\ cshape_okb code_cshape = true.
+Proof. vm_compute. repeat split; reflexivity. Qed.
+Print Assumptions c20_text_as_modelled.
+
+(* The closer model refines the abstract one: for every server (any error-response
+   bytes), script and buffer sizes, the same Read results, the same progress, the
+   same scripts left, and the server side sees the same offsets. *)
+Theorem c20_refines : forall srv rds cns bufs,
+  exists r rr, session (base srv) retry_schedule rds cns bufs = Ok r /\
+    session_r code_shape srv retry_schedule rds cns bufs = Ok rr /\
+    match rr, r with
+    | Some (sr, outs_r), Some (s, outs) =>
+        outs_r = outs /\ rprogress sr = progress s /\ first_ranges sr = reqs s /\
+        rreads sr = reads s /\ rconns sr = conns s
+    | None, None => True
+    | _, _ => False
+    end.
+Proof. intros. exact (session_refines code_shape srv retry_schedule rds cns bufs (proj1 c20_text_as_modelled) c20_schedule_sound). Qed.
+Print Assumptions c20_refines.
+
+(* The request side: the Range header lives in the Header map all attempts share.
+   Every request of every session carries exactly the values meant for the
+   progress at which it was made: no Range header at progress 0, the single value
+   bytes=<progress>- otherwise — nothing left over from earlier attempts. *)
+Theorem c20_range_header_is_progress : forall srv rds cns bufs sr outs,
+  session_r code_shape srv retry_schedule rds cns bufs = Ok (Some (sr, outs)) ->
+  Forall (fun ph => snd ph = range_values (fst ph)) (rsent sr).
+Proof. intros srv rds cns bufs sr outs. exact (session_range_header code_shape srv retry_schedule rds cns bufs sr outs (proj1 c20_text_as_modelled) c20_schedule_sound). Qed.
+Print Assumptions c20_range_header_is_progress.
+
+(* ... which is a fact about Set versus Add: with Header.Add on the shared map
+   (seeded change C20-4) the third request carries [2; 3], the server answers the
+   first value, and a byte is handed over twice *)
+Theorem c20_range_header_appended_refuted :
+  exists srv rds bufs sr outs,
+    session_r {| range_add := true; hdr_shared := true; install_early := false; fail_closes := true |}
+      srv retry_schedule rds [] bufs = Ok (Some (sr, outs)) /\
+    List.map snd (rsent sr) = [[]; [2]; [2; 3]] /\
+    delivered outs = [1; 2; 3; 3; 4]%N /\
+    valid_outs (data (base srv)) [] outs <> [].
+Proof. exact range_appended_duplicates. Qed.
+Print Assumptions c20_range_header_appended_refuted.
+
+(* Error responses with bodies: whatever bytes a 4xx/5xx/416 response carries,
+   for every script: the bytes handed over are a prefix of the server's, progress
+   counts them, and a body the reader still holds open is the server's bytes from
+   [progress] on — the body of a response that is neither 200 nor 206 is never
+   r.body when a Read returns, so it is never handed to the consumer. *)
+Theorem c20_error_body_never_delivered : forall srv rds cns bufs,
+  exists rr, session_r code_shape srv retry_schedule rds cns bufs = Ok rr /\
+    forall sr outs, rr = Some (sr, outs) ->
+      (exists suf, data (base srv) = delivered outs ++ suf) /\
+      rprogress sr = List.length (delivered outs) /\
+      (dead (rbdy sr) = false -> exists suf, skipn (rprogress sr) (data (base srv)) = rest (rbdy sr) ++ suf).
+Proof. intros. exact (session_error_body code_shape srv retry_schedule rds cns bufs (proj1 c20_text_as_modelled) c20_schedule_sound). Qed.
+Print Assumptions c20_error_body_never_delivered.
+
+(* ... which is a fact about the order of two statements and a Close: with
+   r.body assigned before the status test and the failed reset's response left
+   open, the bytes [66; 67] of a 503 page are handed to the consumer *)
+Theorem c20_error_body_early_install_refuted :
+  exists srv rds cns bufs sr outs,
+    session_r {| range_add := false; hdr_shared := true; install_early := true; fail_closes := false |}
+      srv retry_schedule rds cns bufs = Ok (Some (sr, outs)) /\
+    delivered outs = [1; 2; 66; 67]%N /\
+    valid_outs (data (base srv)) [] outs <> [].
+Proof. exact early_install_delivers_error_body. Qed.
+Print Assumptions c20_error_body_early_install_refuted.
+
+(* c20_faithful and c20_live, said of the closer model *)
+Theorem c20_code_faithful : forall srv rds cns bufs, framed cns ->
+  exists rr, session_r code_shape srv retry_schedule rds cns bufs = Ok rr /\
+    forall sr outs, rr = Some (sr, outs) ->
+      Faithful (data (base srv)) outs /\ rprogress sr = List.length (delivered outs).
+Proof. intros srv rds cns bufs. exact (session_r_faithful code_shape srv retry_schedule rds cns bufs (proj1 c20_text_as_modelled) c20_schedule_sound). Qed.
+Print Assumptions c20_code_faithful.
+
+Theorem c20_code_live : forall srv rds cns bufs,
+  all_serve cns ->
+  tolerated (List.length (data (base srv))) (kind (base srv)) retry_schedule bufs 0 rds = true ->
+  List.length (data (base srv)) < List.length bufs ->
+  exists sr outs, session_r code_shape srv retry_schedule rds cns bufs = Ok (Some (sr, outs)) /\
+    Complete (data (base srv)) outs.
+Proof. intros srv rds cns bufs. exact (session_r_live code_shape srv retry_schedule rds cns bufs (proj1 c20_text_as_modelled)). Qed.
+Print Assumptions c20_code_live.
+
+(* Completion for the budget in the source, said on the script alone: against a
+   Range-honouring server, every script with at most [retry_budget] failing body
+   reads in a row, each of them while fewer bytes than the body holds can have
+   been handed over (so that the resumption asks for an offset inside the body:
+   the 416 corner stays excluded), read with non-zero buffers, more of them than
+   the body has bytes: all bytes, EOF, no error. [retry_budget] is the number of
+   leading [true] entries of the schedule literal in Read (c20_text_as_modelled
+   ties it to [retry_schedule]). *)
+Theorem c20_live_budget : forall srv rds cns bufs,
+  kind (base srv) = HonoursRange ->
+  all_serve cns ->
+  runs_le retry_budget 0 rds = true ->
+  early_faults (List.length (data (base srv))) 0 rds = true ->
+  Forall (fun n => n <> 0) bufs ->
+  List.length (data (base srv)) < List.length bufs ->
+  exists sr outs, session_r code_shape srv retry_schedule rds cns bufs = Ok (Some (sr, outs)) /\
+    Complete (data (base srv)) outs.
+Proof. intros srv rds cns bufs. exact (session_r_live_budget code_shape srv retry_budget rds cns bufs (proj1 c20_text_as_modelled)). Qed.
+Print Assumptions c20_live_budget.
+
+(* one failing body read more than the budget, in a row: the Read reports an error *)
+Theorem c20_live_budget_exceeded_refuted :
+  exists srv rds bufs sr outs,
+    kind (base srv) = HonoursRange /\
+    runs_le retry_budget 0 rds = false /\ runs_le (S retry_budget) 0 rds = true /\
+    early_faults (List.length (data (base srv))) 0 rds = true /\
+    session_r code_shape srv retry_schedule rds [] bufs = Ok (Some (sr, outs)) /\
+    Exists (fun o => snd o = EFail) outs.
+Proof. exact budget_exceeded_fails. Qed.
+Print Assumptions c20_live_budget_exceeded_refuted.
+
+Example c20_live_budget_satisfiable :
+  runs_le retry_budget 0
+    [ {| rk := 0; rfail := true; reager := false |}; {| rk := 0; rfail := true; reager := false |};
+      {| rk := 2; rfail := false; reager := false |}; {| rk := 1; rfail := true; reager := false |};
+      {| rk := 1; rfail := true; reager := false |} ] = true /\
+  early_faults 5 0
+    [ {| rk := 0; rfail := true; reager := false |}; {| rk := 0; rfail := true; reager := false |};
+      {| rk := 2; rfail := false; reager := false |}; {| rk := 1; rfail := true; reager := false |};
+      {| rk := 1; rfail := true; reager := false |} ] = true.
+Proof. split; reflexivity. Qed.
+
+(* The index download through the cache directory (retrieveAndSaveFile: copy the
+   response into a temporary file, then advertise it under the etag's name): for
+   every server content, every body-read script (the connection cut anywhere) and
+   every framed response: either the download reports an error, nothing is
+   advertised and no temporary file stays behind, or exactly the server's bytes
+   are advertised under the final name and returned. *)
+Theorem c20_cached_download_complete_or_error : forall dat c rds d,
+  framed_ev c = true -> adv d = None ->
+  exists d' r rds', cached_fetch code_cshape dat c rds d = Ok (d', r, rds') /\
+    tmps d' = tmps d /\
+    ((r = Some dat /\ adv d' = Some dat) \/ (r = None /\ adv d' = None)).
+Proof. intros dat c rds d. exact (cached_fetch_complete_or_error code_cshape dat c rds d (proj2 (proj2 (proj2 (proj2 c20_text_as_modelled))))). Qed.
+Print Assumptions c20_cached_download_complete_or_error.
+
+(* two downloads over the same directory, each cut anywhere: whatever the first
+   one did, the second returns the server's bytes or an error (what the index
+   stage does to the real code: a faulty download, then a healthy one) *)
+Theorem c20_cached_download_twice : forall dat c1 rds1 c2 rds2 d,
+  framed_ev c1 = true -> framed_ev c2 = true -> adv d = None ->
+  exists d1 r1 rds1' d2 r2 rds2',
+    cached_fetch code_cshape dat c1 rds1 d = Ok (d1, r1, rds1') /\
+    cached_fetch code_cshape dat c2 rds2 d1 = Ok (d2, r2, rds2') /\
+    (r1 = None \/ r1 = Some dat) /\ (r2 = None \/ r2 = Some dat) /\
+    (r1 = Some dat -> r2 = Some dat) /\ tmps d2 = tmps d.
+Proof. intros dat c1 rds1 c2 rds2 d. exact (cached_fetch_twice code_cshape dat c1 rds1 c2 rds2 d (proj2 (proj2 (proj2 (proj2 c20_text_as_modelled))))). Qed.
+Print Assumptions c20_cached_download_twice.
+
+(* finding C20-F1 on this path, where it lasts: a close-delimited response closed
+   cleanly after 2 of 5 bytes is copied without an error, advertised, and served
+   from the cache on every later download *)
+Theorem c20_cached_short_body_unframed_refuted :
+  exists dat c d1 r1 rds1',
+    cshape_okb code_cshape = true /\
+    cached_fetch code_cshape dat c [] {| adv := None; tmps := [] |} = Ok (d1, r1, rds1') /\
+    r1 = Some [1; 2]%N /\ adv d1 = Some [1; 2]%N /\
+    forall c2 rds2, cached_fetch code_cshape dat c2 rds2 d1 = Ok (d1, Some [1; 2]%N, rds2).
+Proof. exact cached_short_body_stays. Qed.
+Print Assumptions c20_cached_short_body_unframed_refuted.
+
+(* the error of the copy must decide (seeded change C20-6 let tmp.Close() decide) *)
+Theorem c20_cached_copy_error_ignored_refuted :
+  exists dat rds d1 r1 rds1',
+    cached_fetch {| copy_decides := false; removes_tmp := true; copy_first := true |} dat CServe rds
+      {| adv := None; tmps := [] |} = Ok (d1, r1, rds1') /\
+    r1 = Some [1; 2]%N /\ adv d1 = Some [1; 2]%N /\ dat = [1; 2; 3; 4; 5]%N.
+Proof. exact copy_error_ignored_advertises_short_body. Qed.
+Print Assumptions c20_cached_copy_error_ignored_refuted.
+
+(* fetchRepositoryIndex = RoundTrip, the status test, io.ReadAll over the Reads:
+   the bytes it returns without an error are exactly the server's *)
+Theorem c20_readall_complete_or_error : forall dat outs b,
+  Faithful dat outs -> read_all outs [] = Some (Some b) -> b = dat.
+Proof. exact read_all_faithful. Qed.
+Print Assumptions c20_readall_complete_or_error.
